@@ -1,6 +1,7 @@
 /* SDO server functions against sdo.h. -DVW_FN=<function> -DVW_ARGS=<extra args> */
 #include "vw_defs.h"
 #include "vw_node.h"
+#include "dictv.h"
 #include "sdo.h"
 uint16_t H_OBJIDX[CO_SSDO_N];
 uint32_t H_A32; uint16_t H_A16; _Bool H_AB;
@@ -14,6 +15,7 @@ void harness(void)
         V_NODE.Sdo[n].Obj = H_SDOOBJ[n] ? &G_DROOT[H_OBJIDX[n]] : (CO_OBJ *)0;
     }
     __CPROVER_assume(G_N < CO_SSDO_N);
+    G_MUX_I = spec_find(CO_DEV(V_NODE.Sdo[G_N].Idx, V_NODE.Sdo[G_N].Sub)); G_MUX0_I = spec_find(CO_DEV(V_NODE.Sdo[G_N].Idx, 0));
     uint32_t tx0 = G_TX_N;
     VW_CALL;
     __CPROVER_assert(0, "REACH:post");
